@@ -97,6 +97,7 @@ func runC16(c *Check) {
 	c.Rule("R16.1", "acceptance is gated by the binding comparisons between the named field pairs and by the signature checks on the right validator set")
 	c.Rule("R16.2", "hash and gossip id depend only on the committed block id")
 	c.Rule("R16.3", "first-party acceptance sites enumerated")
+	defer c16PureDecode(c)
 	val := p.Func("header", "ExtendedHeader", "Validate")
 	ver := p.Func("header", "ExtendedHeader", "Verify")
 	if val == nil || ver == nil {
